@@ -13,6 +13,7 @@ import LasModel.Driver.StreamD
 import LasModel.Driver.CompD
 import LasModel.Driver.CopcD
 import LasModel.Driver.HttpD
+import LasModel.Model.Selection
 namespace LasModel.Driver
 
 /-- the operator tables of the view classes as the model has them (`Gen.Views`) -/
@@ -38,6 +39,15 @@ def dispatch (line : String) : String :=
   | "ht" :: rest => (HttpD.handle rest).getD "bad-op"
   | ["vw", "tables"] => viewTables
   | ["od", "flags"] => s!"writer={if Gen.Order.writerCountsAfterWrite then 1 else 0} appender={if Gen.Order.appenderCountsAfterWrite then 1 else 0}"
+  | ["sel", "lazrs", n] => (match n.toNat? with
+      | some k => (match Selection.toBackend Gen.Selection.lazrsMap Gen.Selection.lazrsAlways Selection.stubBk k with
+          | some r => toString r | none => "KeyError")
+      | none => "bad-op")
+  | ["sel", "laszip", n] => (match n.toNat? with
+      | some k => (match Selection.toBackend Gen.Selection.laszipMap Gen.Selection.laszipAlways Selection.laszipBk k with
+          | some r => toString r | none => "KeyError")
+      | none => "bad-op")
+  | ["sel", "tables"] => s!"all={Gen.Selection.allValue} base={Gen.Selection.baseValue} skip={Gen.Selection.skipFromAll.map (·.2)} dec={Gen.Selection.decompressFromBase.map (·.2)}"
   | _ => "bad-op"
 
 partial def loop (h : IO.FS.Stream) (out : IO.FS.Stream) : IO Unit := do
